@@ -7,123 +7,7 @@
             S <values>               specification (Coq Spec.v)
    texts : per loop  <name> <kind><axis> count= <text> decl= <text>   (text = Expr.print of the trees)
    values: per env   OOS (a step is not positive) | UB | HUGE | sorted iterator tuples *)
-let zi = z_of_int
-let iz = int_of_z
-
-exception Malformed of string
-
-let binop_of_string = function
-  | "*" -> Some Mul | "/" -> Some Div | "%" -> Some Mod | "+" -> Some Add | "-" -> Some Sub
-  | "<<" -> Some Shl | ">>" -> Some Shr | "<" -> Some OLt | "<=" -> Some OLe | ">" -> Some OGt
-  | ">=" -> Some OGe | "==" -> Some OEq | "!=" -> Some ONe | "&" -> Some BAnd | "^" -> Some BXor
-  | "|" -> Some BOr | "&&" -> Some LAnd | "||" -> Some LOr | _ -> None
-
-let string_of_binop = function
-  | Mul -> "*" | Div -> "/" | Mod -> "%" | Add -> "+" | Sub -> "-" | Shl -> "<<" | Shr -> ">>"
-  | OLt -> "<" | OLe -> "<=" | OGt -> ">" | OGe -> ">=" | OEq -> "==" | ONe -> "!=" | BAnd -> "&"
-  | BXor -> "^" | BOr -> "|" | LAnd -> "&&" | LOr -> "||"
-
-let var_names = [| "N"; "M"; "P"; "Q" |]
-
-let tok_of_string (s : string) : tok =
-  match binop_of_string s with
-  | Some o -> KBin o
-  | None ->
-    match s with
-    | "!" -> KNot | "~" -> KTilde | "?" -> KQ | ":" -> KColon | "(" -> KLP | ")" -> KRP
-    | "N" -> KId (zi 0) | "M" -> KId (zi 1) | "P" -> KId (zi 2) | "Q" -> KId (zi 3)
-    | _ ->
-      (match int_of_string_opt s with
-       | Some n when n >= 0 -> KNum (zi n)
-       | _ -> raise (Malformed ("token " ^ s)))
-
-(* kind: "o" / "i" — names the thread-index identifier of an axis *)
-let string_of_tok (kind : string) (t : tok) : string =
-  match t with
-  | KNum n -> string_of_int (iz n)
-  | KId x ->
-    let i = iz x in
-    if i >= 0 then (if i < 4 then var_names.(i) else "V" ^ string_of_int i)
-    else "@" ^ kind ^ string_of_int (-1 - i)
-  | KBin o -> string_of_binop o
-  | KNot -> "!" | KTilde -> "~" | KQ -> "?" | KColon -> ":" | KLP -> "(" | KRP -> ")"
-
-let text kind (e : expr) : string = String.concat " " (List.map (string_of_tok kind) (print e))
-
-let parse_operand (ts : string list) : expr =
-  if ts = [] then raise (Malformed "empty operand");
-  match parse (List.map tok_of_string ts) with
-  | Some e -> if safe e then e else raise (Malformed "unsafe")
-  | None -> raise (Malformed "operand does not parse")
-
-type rawloop = { cmp : cmp; left : bool; updk : string; init : expr; bound : expr; step : expr option }
-
-let prec_of e = int_of_nat (eprec e)
-
-(* split the token list of one loop into its operand sections *)
-let parse_loop (ts : string list) : rawloop =
-  match ts with
-  | c :: sd :: u :: rest ->
-    let cmp = (match c with "lt" -> CLt | "le" -> CLe | "gt" -> CGt | "ge" -> CGe
-                          | _ -> raise (Malformed "cmp")) in
-    let left = (match sd with "L" -> true | "R" -> false | _ -> raise (Malformed "side")) in
-    if not (List.mem u ["inc"; "pinc"; "dec"; "pdec"; "add"; "sub"]) then raise (Malformed "upd");
-    let sect = ref "" and i = ref [] and b = ref [] and s = ref [] in
-    List.iter (fun t ->
-        match t with
-        | "i" | "b" | "s" -> sect := t
-        | _ ->
-          (match !sect with
-           | "i" -> i := t :: !i | "b" -> b := t :: !b | "s" -> s := t :: !s
-           | _ -> raise (Malformed "operand outside a section"))) rest;
-    let init = parse_operand (List.rev !i) and bound = parse_operand (List.rev !b) in
-    let step = (match u with
-        | "add" | "sub" -> Some (parse_operand (List.rev !s))
-        | _ -> if !s <> [] then raise (Malformed "step without += / -=") else None) in
-    (* the operand has to be readable at its position in `it cmp BOUND` / `BOUND cmp it` *)
-    if left && prec_of bound < 9 then raise (Malformed "bound binds too weakly");
-    if (not left) && prec_of bound < 8 then raise (Malformed "bound binds too weakly");
-    { cmp; left; updk = u; init; bound; step }
-  | _ -> raise (Malformed "loop")
-
-let header_of (l : rawloop) : header =
-  let u = (match l.updk, l.step with
-      | ("inc" | "pinc"), _ -> UInc
-      | ("dec" | "pdec"), _ -> UDec
-      | "add", Some s -> UAdd s
-      | "sub", Some s -> USub s
-      | _ -> raise (Malformed "upd")) in
-  { h_init = l.init; h_cmp = l.cmp; h_left = l.left; h_bound = l.bound; h_upd = u }
-
-let rec split_on_kw kw (ts : string list) : string list list =
-  (* sections starting after each occurrence of kw; the part before the first kw is dropped *)
-  let rec go cur acc = function
-    | [] -> List.rev (match cur with Some c -> List.rev c :: acc | None -> acc)
-    | t :: r when t = kw ->
-      go (Some []) (match cur with Some c -> List.rev c :: acc | None -> acc) r
-    | t :: r -> (match cur with Some c -> go (Some (t :: c)) acc r | None -> go None acc r)
-  in go None [] ts
-
-let rec take n l = if n = 0 then [] else match l with [] -> [] | x :: t -> x :: take (n - 1) t
-let rec drop n l = if n = 0 then l else match l with [] -> [] | _ :: t -> drop (n - 1) t
-
-let string_of_tuple t = String.concat "," (List.map (fun x -> string_of_int (iz x)) t)
-
-let show_tuples (ts : z list list) : string =
-  let strs = List.sort compare (List.map (fun t -> List.map iz t) ts) in
-  let rec groups = function
-    | [] -> []
-    | x :: r ->
-      let same, rest = List.partition (fun y -> y = x) r in
-      (x, 1 + List.length same) :: groups rest in
-  let g = groups strs in
-  if g = [] then "-" else
-    String.concat " " (List.map (fun (t, k) ->
-        let s = String.concat "," (List.map string_of_int t) in
-        if k = 1 then s else s ^ "*" ^ string_of_int k) g)
-
-let cart2 (a : z list list) (b : z list list) : z list list =
-  List.concat_map (fun x -> List.map (fun y -> x @ y) b) a
+open Common
 
 let limit = 4096
 
